@@ -10,11 +10,13 @@
 //               sample <kind> <forced dynsampler answer|-> <seed> <trace>
 // trace:        spans joined by '|' ('-' = no span); span = ['*' root flag] fields joined by ';'
 //               ('_' = no field); field = <enc name>=<type>~<enc raw>
-// types:        s string, i int, l int64, f float64, b bool, n nil, u uint64, a []any{raw,1}
+// types:        s string, b bool, n nil, int|int8|int16|int32|int64|uint|uint8|uint16|uint32|uint64 (raw = the
+//               number in decimal: the LOGICAL value), f float64 (raw = shortest round-trip text), a []any{raw,1}
 // obs (key):    k=<enc key> n=<values used>
 // obs (sample): rate=<r> keep=<0|1> reason=<reason> k=<enc key>
-// ext:          str <type> <enc raw> = <enc AddAsString rendering>      (first use in the case)
-//               fmt <type> <enc raw> = <enc %v rendering>
+// ext:          str <type> <enc raw> = <enc text>   types f, a only, first use in the case; computed HERE with the Go
+//               fmt <type> <enc raw> = <enc text>   standard library (strconv.FormatFloat(v,'f',-1,64) / fmt %v),
+//                                                   never taken from the code under verification
 //               dynrate = <what dynsampler answered>
 //               dyncall <enc key> <count>        (dynamic only: arguments dynsampler was called with)
 //               intn <n> = <rand.Intn(n) for the seed used>
@@ -90,10 +92,11 @@ func decTrace(tok string) []span {
 		if st != "_" && st != "" {
 			for _, ft := range strings.Split(st, ";") {
 				eq := strings.IndexByte(ft, '=')
-				if eq < 0 || eq+2 >= len(ft) || ft[eq+2] != '~' {
+				ti := strings.IndexByte(ft, '~')
+				if eq < 0 || ti < eq+2 || ti+1 >= len(ft) {
 					panic("bad field token " + ft)
 				}
-				sp.fields = append(sp.fields, fv{kit.Dec(ft[:eq]), val{ft[eq+1 : eq+2], kit.Dec(ft[eq+3:])}})
+				sp.fields = append(sp.fields, fv{kit.Dec(ft[:eq]), val{ft[eq+1 : ti], kit.Dec(ft[ti+1:])}})
 			}
 		}
 		out = append(out, sp)
@@ -102,32 +105,72 @@ func decTrace(tok string) []span {
 }
 
 func goValue(v val) any {
+	si := func(bits int) int64 {
+		n, err := strconv.ParseInt(v.raw, 10, bits)
+		if err != nil {
+			panic("bad " + v.ty + " " + v.raw)
+		}
+		return n
+	}
+	ui := func(bits int) uint64 {
+		n, err := strconv.ParseUint(v.raw, 10, bits)
+		if err != nil {
+			panic("bad " + v.ty + " " + v.raw)
+		}
+		return n
+	}
 	switch v.ty {
 	case "s":
 		return v.raw
-	case "i":
-		n, _ := strconv.ParseInt(v.raw, 10, 64)
-		return int(n)
-	case "l":
-		n, _ := strconv.ParseInt(v.raw, 10, 64)
-		return n
+	case "int":
+		return int(si(64))
+	case "int8":
+		return int8(si(8))
+	case "int16":
+		return int16(si(16))
+	case "int32":
+		return int32(si(32))
+	case "int64":
+		return si(64)
+	case "uint":
+		return uint(ui(64))
+	case "uint8":
+		return uint8(ui(8))
+	case "uint16":
+		return uint16(ui(16))
+	case "uint32":
+		return uint32(ui(32))
+	case "uint64":
+		return ui(64)
 	case "f":
 		if v.raw == "-0" {
 			return math.Copysign(0, -1)
 		}
-		f, _ := strconv.ParseFloat(v.raw, 64)
+		f, err := strconv.ParseFloat(v.raw, 64)
+		if err != nil {
+			panic("bad float " + v.raw)
+		}
 		return f
 	case "b":
 		return v.raw == "true"
 	case "n":
 		return nil
-	case "u":
-		n, _ := strconv.ParseUint(v.raw, 10, 64)
-		return n
 	case "a":
 		return []any{v.raw, 1}
 	}
 	panic("bad type " + v.ty)
+}
+
+// stdText is the Go standard library's text of a non-plain value: what AddAsString must write
+// for it (str) and what %v gives (fmt). Plain types are rendered by the Lean model itself.
+func stdText(v val, gv any) (str, fm string, ext bool) {
+	switch v.ty {
+	case "f":
+		return strconv.FormatFloat(gv.(float64), 'f', -1, 64), fmt.Sprintf("%v", gv), true
+	case "a":
+		return fmt.Sprintf("%v", gv), fmt.Sprintf("%v", gv), true
+	}
+	return "", "", false
 }
 
 // ---------------------------------------------------------------- generator
@@ -137,12 +180,23 @@ var rootPool = []string{"root.svc", "root.a", "root.z", "root."}
 
 var valuePool = []val{
 	{"s", ""}, {"s", ""}, {"s", "a"}, {"s", "a"}, {"s", "b"}, {"s", "ab"}, {"s", "a•"}, {"s", "•"}, {"s", ","},
-	{"s", "a,b"}, {"s", "1"}, {"s", "true"}, {"s", "<nil>"}, {"s", "é"}, {"s", "z"}, {"s", " "}, {"s", "200"},
+	{"s", "a,b"}, {"s", "1"}, {"s", "-1"}, {"s", "true"}, {"s", "<nil>"}, {"s", "é"}, {"s", "z"}, {"s", " "}, {"s", "200"},
 	{"s", "0.5"}, {"s", "A"}, {"s", "/{slug}/home"}, {"s", "%"}, {"s", "a b=c"},
-	{"i", "0"}, {"i", "1"}, {"i", "-1"}, {"i", "200"}, {"i", "404"},
-	{"l", "1"}, {"l", "9007199254740993"}, {"l", "-9223372036854775808"},
-	{"f", "1"}, {"f", "0.5"}, {"f", "1e+21"}, {"f", "NaN"}, {"f", "-0"}, {"f", "200"}, {"f", "1e-07"}, {"f", "+Inf"},
-	{"b", "true"}, {"b", "false"}, {"n", "-"}, {"u", "7"}, {"u", "1"}, {"a", "x"}, {"a", "a"},
+	{"int", "0"}, {"int", "1"}, {"int", "-1"}, {"int", "200"}, {"int", "404"},
+	{"int64", "1"}, {"int64", "-1"}, {"int64", "9007199254740993"}, {"int64", "-9223372036854775808"}, {"int64", "9223372036854775807"},
+	{"uint64", "1"}, {"uint64", "7"}, {"uint64", "9223372036854775807"}, {"uint64", "9223372036854775808"},
+	{"uint64", "18446744073709551615"}, {"uint64", "18446744073709551614"},
+	{"uint", "18446744073709551615"}, {"uint32", "4294967295"}, {"int32", "-1"}, {"int32", "-2147483648"}, {"uint8", "255"}, {"int8", "-128"}, {"uint16", "1"},
+	{"f", "1"}, {"f", "0.5"}, {"f", "1e+21"}, {"f", "NaN"}, {"f", "-0"}, {"f", "200"}, {"f", "1e-07"}, {"f", "+Inf"}, {"f", "-1"},
+	{"b", "true"}, {"b", "false"}, {"n", "-"}, {"a", "x"}, {"a", "a"},
+}
+
+// integers at the edges of their types, and the same number under different types
+var intEdgePool = []val{
+	{"int64", "-1"}, {"uint64", "18446744073709551615"}, {"int64", "-9223372036854775808"}, {"uint64", "9223372036854775808"},
+	{"int64", "9223372036854775807"}, {"uint64", "9223372036854775807"}, {"uint64", "18446744073709551614"}, {"int64", "-2"},
+	{"uint", "18446744073709551615"}, {"int", "-1"}, {"int32", "-1"}, {"uint32", "4294967295"}, {"int64", "4294967295"},
+	{"int64", "1"}, {"uint64", "1"}, {"f", "1"}, {"s", "1"}, {"int", "1"}, {"s", "-1"}, {"f", "-1"}, {"uint64", "0"}, {"int64", "0"},
 }
 
 var kinds = []string{"dynamic", "emadynamic", "emathroughput", "windowedthroughput", "totalthroughput"}
@@ -252,13 +306,15 @@ func sampleOp(r *kit.Rng, s []span) string {
 }
 
 func (comp) Gen(r *kit.Rng, maxLen int, tier string) kit.Case {
-	switch r.Pick(62, 16, 10, 12) {
+	switch r.Pick(56, 14, 8, 10, 12) {
 	case 1:
 		return genCap(r)
 	case 2:
 		return genEdge(r)
 	case 3:
-		return genEmptyString(r)
+		return genSeparation(r, []val{{"s", ""}, {"s", "a"}, {"s", "b"}, {"int", "1"}, {"b", "true"}, {"s", "ab"}, {"f", "0.5"}, {"n", "-"}, {"s", ""}})
+	case 4:
+		return genSeparation(r, intEdgePool)
 	}
 	return genPerm(r, maxLen)
 }
@@ -430,7 +486,7 @@ func genCap(r *kit.Rng) kit.Case {
 	mk := func(i int) val {
 		switch r.Pick(50, 30, 20) {
 		case 0:
-			return val{"i", strconv.Itoa(i)}
+			return val{"int", strconv.Itoa(i)}
 		case 1:
 			return val{"s", fmt.Sprintf("v%d", i)}
 		}
@@ -513,21 +569,24 @@ func genEdge(r *kit.Rng) kit.Case {
 	return kit.Case{Header: fmt.Sprintf("fields=%s tl=%d", encFields(fields), tl), Ops: ops}
 }
 
-// pairs of traces whose value sets differ, all fields present, delimiter-free values: the
-// separation claim, with and without the empty string among the values
-func genEmptyString(r *kit.Rng) kit.Case {
+// many small traces over one small pool of values, all fields present: pairs of traces whose
+// value sets differ (the separation claim) — with the empty string, with integers at the edges of
+// their types (int64 -1 / uint64 2^64-1, MinInt64 / 2^63 …) and the same number under several types
+func genSeparation(r *kit.Rng, from []val) kit.Case {
 	fields := []string{"a"}
-	if r.Chance(50) {
+	if r.Chance(40) {
 		fields = append(fields, "b")
 	}
 	if r.Chance(30) {
 		fields = append(fields, "root.svc")
 	}
 	tl := r.Intn(2)
-	clean := []val{{"s", ""}, {"s", "a"}, {"s", "b"}, {"i", "1"}, {"b", "true"}, {"s", "ab"}, {"f", "0.5"}, {"n", "-"}, {"s", ""}}
-	n := 1 + r.Intn(4)
+	pool := make([]val, 3+r.Intn(4))
+	for i := range pool {
+		pool[i] = from[r.Intn(len(from))]
+	}
 	mk := func() []span {
-		s := genSpans(r, fields, clean, n, 100)
+		s := genSpans(r, fields, pool, 1+r.Pick(50, 30, 15, 5), 100)
 		for i := range s {
 			s[i].root = false
 		}
@@ -535,11 +594,12 @@ func genEmptyString(r *kit.Rng) kit.Case {
 		return s
 	}
 	var ops []string
-	for i := 0; i < 6+r.Intn(6); i++ {
+	for i := 0; i < 8+r.Intn(8); i++ {
 		ops = append(ops, "key "+encTrace(mk()))
 	}
 	base := mk()
 	ops = append(ops, "key "+encTrace(base))
+	ops = append(ops, "key "+encTrace(append(cloneSpans(base), span{false, []fv{{"a", pool[r.Intn(len(pool))]}}})))
 	ops = append(ops, "key "+encTrace(append(cloneSpans(base), span{false, []fv{{"a", val{"s", ""}}}})))
 	ops = append(ops, sampleOp(r, base))
 	return kit.Case{Header: fmt.Sprintf("fields=%s tl=%d", encFields(fields), tl), Ops: ops}
@@ -568,8 +628,8 @@ func (comp) NewCase(h []string) kit.Runner {
 	return r
 }
 
-// realTrace builds real types.Trace / types.Span objects and emits the renderings of the values
-// that have not been reported yet in this case.
+// realTrace builds real types.Trace / types.Span objects and emits the standard-library text of
+// the float / other-typed values that have not been reported yet in this case.
 func (r *runner) realTrace(spans []span) *types.Trace {
 	tr := &types.Trace{TraceID: "verif-trace"}
 	for _, sp := range spans {
@@ -582,12 +642,10 @@ func (r *runner) realTrace(spans []span) *types.Trace {
 			m[f.name] = gv
 			if !r.seen[f.v] {
 				r.seen[f.v] = true
-				s, ok := sample.VerifTKAsString(gv)
-				if !ok {
-					s = "?AddAsString-did-not-store"
+				if st, fm, ext := stdText(f.v, gv); ext {
+					kit.Ext("str %s %s = %s", f.v.ty, kit.Enc(f.v.raw), kit.Enc(st))
+					kit.Ext("fmt %s %s = %s", f.v.ty, kit.Enc(f.v.raw), kit.Enc(fm))
 				}
-				kit.Ext("str %s %s = %s", f.v.ty, kit.Enc(f.v.raw), kit.Enc(s))
-				kit.Ext("fmt %s %s = %s", f.v.ty, kit.Enc(f.v.raw), kit.Enc(fmt.Sprintf("%v", gv)))
 			}
 		}
 		s := &types.Span{Event: &types.Event{Data: types.NewPayload(r.cfg, m)}, TraceID: tr.TraceID, IsRoot: sp.root}
